@@ -239,9 +239,10 @@ std::vector<std::pair<T, T>> make_set(const std::string& set, uint32_t g) {
   if (set == "full8") { // every (start,end) pair of the type, including empty and reversed
     for (i128 s = lo; s <= hi; s++)
       for (i128 e = lo; e <= hi; e++) add(s, e);
-  } else if (set == "quick8") { // every start x sizes 0..40, every range touching MIN or MAX, reversed neighbours
+  } else if (set.compare(0, 2, "sz") == 0) { // sz<k>: every start x sizes 0..k, every range touching MIN or MAX, reversed neighbours
+    const int k = atoi(set.c_str() + 2);
     for (i128 s = lo; s <= hi; s++) {
-      for (int sz = 0; sz <= 40; sz++) add(s, s + sz);
+      for (int sz = 0; sz <= k; sz++) add(s, s + sz);
       add(s, s - 1);
       add(lo, s);
       add(s, hi);
@@ -282,15 +283,49 @@ std::vector<std::pair<T, T>> make_set(const std::string& set, uint32_t g) {
 }
 
 // ------------------------------------------------------------------------------------------ pf_batch
-template <class T, class TS>
-void run_batch(dispenso::ThreadPool& pool, const mc::Params& P, int part, int parts) {
-  const int N = (int)P("n", 1);
-  const bool wait = P("wait", 1) != 0;
-  const int check = (int)P("check", 12);
-  const std::string set = P.s("set", "quick8");
+// The batch = every listed option set x every range of the input set, numbered 0..total-1. One execution runs the
+// calls whose number is congruent to `part` modulo `parts`; `part` is picked by mc::choose (cost 0, explored
+// exhaustively), so that no execution exceeds the engine's per-execution horizon (49152 choice points).
+struct BatchPlan {
   std::vector<Mode> modes;
-  for (auto& t : split(P.s("mode", "s"))) modes.push_back(parse_mode(t));
-  std::vector<unsigned long> mts = nums(P.s("mt", "2147483647")), mis = nums(P.s("mi", "1")), gs = nums(P.s("g", "1"));
+  std::vector<unsigned long> mts, mis, gs, waits;
+  std::string set;
+  long total = 0, parts = 1, part = 0;
+};
+template <class T>
+BatchPlan make_plan(const mc::Params& P) {
+  BatchPlan pl;
+  pl.set = P.s("set", "sz12");
+  for (auto& t : split(P.s("mode", "s"))) pl.modes.push_back(parse_mode(t));
+  pl.mts = nums(P.s("mt", "2147483647"));
+  pl.mis = nums(P.s("mi", "1"));
+  pl.gs = nums(P.s("g", "1"));
+  pl.waits = nums(P.s("wait", "1"));
+  long per_g = (long)(pl.modes.size() * pl.mts.size() * pl.mis.size() * pl.waits.size());
+  size_t fixed = 0;
+  for (unsigned long g : pl.gs) {
+    if (pl.set == "gran" || !fixed) fixed = make_set<T>(pl.set, (uint32_t)g).size();
+    pl.total += per_g * (long)fixed;
+  }
+  long per = P("per", 150);
+  pl.parts = std::max(1L, (pl.total + per - 1) / per);
+  MC_CHECK(pl.parts <= 64 * 64, "harness: batch of %ld calls needs %ld executions (> 4096); raise per= or split the run", pl.total, pl.parts);
+  if (pl.parts <= 64) {
+    pl.part = pl.parts > 1 ? mc::choose((int)pl.parts) : 0;
+  } else {
+    long k = (pl.parts + 63) / 64;
+    long a = mc::choose(64);
+    pl.part = a * k + mc::choose((int)k);
+  }
+  return pl;
+}
+
+template <class T, class TS>
+void run_batch(dispenso::ThreadPool& pool, const mc::Params& P, const BatchPlan& pl) {
+  if (pl.part >= pl.parts) return; // padding of the two-level choice
+  const int N = (int)P("n", 1);
+  const int check = (int)P("check", 12);
+  const bool yield_in_body = P("yield", 0) != 0;
   const unsigned long max_explicit = (unsigned long)P("maxexp", 2000);
 
   TS ts(pool);
@@ -301,58 +336,59 @@ void run_batch(dispenso::ThreadPool& pool, const mc::Params& P, int part, int pa
   uint64_t layout = 1469598103934665603ULL;
   std::string first;
   std::vector<std::pair<T, T>> in;
-  uint32_t in_g = 0;
-  for (unsigned long g : gs) {
-    if (in.empty() || (set == "gran" && in_g != g)) {
-      in = make_set<T>(set, (uint32_t)g);
-      in_g = (uint32_t)g;
-    }
-    for (auto& mode : modes)
-      for (unsigned long mt : mts)
-        for (unsigned long mi : mis) {
-          Opt o{mode, (uint32_t)mt, (uint32_t)mi, (uint32_t)g, wait, N};
-          for (auto& se : in) {
-            if (idx++ % parts != part) continue;
-            T s = se.first, e = se.second;
-            if (mode.kind == 'c' && e > s && width(s, e) / (uint64_t)mode.chunk > max_explicit) {
-              skipped++; // an explicit chunk size on a huge range would need > maxexp body calls
-              continue;
+  for (unsigned long g : pl.gs) {
+    if (in.empty() || pl.set == "gran") in = make_set<T>(pl.set, (uint32_t)g);
+    for (auto& mode : pl.modes)
+      for (unsigned long mt : pl.mts)
+        for (unsigned long mi : pl.mis)
+          for (unsigned long w : pl.waits) {
+            const bool wait = w != 0;
+            Opt o{mode, (uint32_t)mt, (uint32_t)mi, (uint32_t)g, wait, N};
+            for (auto& se : in) {
+              if (idx++ % pl.parts != pl.part) continue;
+              T s = se.first, e = se.second;
+              if (mode.kind == 'c' && e > s && width(s, e) / (uint64_t)mode.chunk > max_explicit) {
+                skipped++; // an explicit chunk size on a huge range would need > maxexp body calls
+                continue;
+              }
+              long id = calls++;
+              rec->begin_call(id, s, e, &o);
+              auto body = [r = rec.get(), id, yield_in_body](T lo, T hi) {
+                r->enter(id, lo, hi);
+                if (yield_in_body) std::this_thread::yield(); // lets other threads run on the default schedule
+                r->leave();
+              };
+              call_pf(ts, s, e, o, body);
+              if (!wait) ts.wait();
+              MC_CHECK(rec->inflight.get() == 0, "C12: %d body invocation(s) still running when %s returned, for %s", rec->inflight.get(),
+                       wait ? "parallel_for" : "wait()", rec->input().c_str());
+              rec->cur.set(-1);
+              judge(*rec, s, e, o, v);
+              const std::string& why = check == 13 ? v.why13 : v.why12;
+              if (!why.empty()) {
+                if (!fails++) first = why + " for " + rec->input();
+              }
+              int n = (int)v.c.size();
+              chunks += n;
+              for (auto& c : v.c) layout = fnv(fnv(layout, (uint64_t)c.first), (uint64_t)c.second);
+              layout = fnv(layout, 0x51ed);
+              if (e == s)
+                mc::cover("empty_range");
+              else if (e < s)
+                mc::cover("reversed_range");
+              else if (n == 1)
+                mc::cover("single_chunk");
+              else if (n > 1)
+                mc::cover("multi_chunk");
+              if (rec->on_worker.get()) mc::cover("body_on_worker");
+              if (rec->on_caller.get()) mc::cover("body_on_caller");
+              if (rec->peak.get() >= 2) mc::cover("concurrent_bodies");
+              if (v.nonmult == 1 && n > 1 && v.why13.empty()) mc::cover("granularity_tail");
+              if (o.g > 1 && mode.kind != 'c' && n > 1 && v.nonmult == 0) mc::cover("granular_chunks");
             }
-            long id = calls++;
-            rec->begin_call(id, s, e, &o);
-            auto body = [r = rec.get(), id](T lo, T hi) {
-              r->enter(id, lo, hi);
-              r->leave();
-            };
-            call_pf(ts, s, e, o, body);
-            if (!wait) ts.wait();
-            MC_CHECK(rec->inflight.get() == 0, "C12: %d body invocation(s) still running when %s returned, for %s", rec->inflight.get(),
-                     wait ? "parallel_for" : "wait()", rec->input().c_str());
-            rec->cur.set(-1);
-            judge(*rec, s, e, o, v);
-            const std::string& why = check == 13 ? v.why13 : v.why12;
-            if (!why.empty()) {
-              if (!fails++) first = why + " for " + rec->input();
-            }
-            int n = (int)v.c.size();
-            chunks += n;
-            for (auto& c : v.c) layout = fnv(fnv(layout, (uint64_t)c.first), (uint64_t)c.second);
-            layout = fnv(layout, 0x51ed);
-            if (e == s)
-              mc::cover("empty_range");
-            else if (e < s)
-              mc::cover("reversed_range");
-            else if (n == 1)
-              mc::cover("single_chunk");
-            else if (n > 1)
-              mc::cover("multi_chunk");
-            if (rec->on_worker.get()) mc::cover("body_on_worker");
-            if (rec->on_caller.get()) mc::cover("body_on_caller");
-            if (v.nonmult == 1 && n > 1 && v.why13.empty()) mc::cover("granularity_tail");
-            if (o.g > 1 && mode.kind != 'c' && n > 1 && v.nonmult == 0) mc::cover("granular_chunks");
           }
-        }
   }
+  MC_CHECK(idx == pl.total, "harness: planned %ld calls, enumerated %ld", pl.total, idx);
   MC_CHECK(fails == 0, "C%d: %ld of %ld parallel_for calls violated the property; first: %s", check, fails, calls, first.c_str());
   mc::observe("calls", calls);
   mc::observe("chunks", chunks);
@@ -364,11 +400,10 @@ template <class T, class TS>
 void pf_batch_T(const mc::Params& P) {
   const int N = (int)P("n", 1);
   const int nest = (int)P("nest", 0);
-  const int parts = (int)P("parts", 1);
-  const int part = parts > 1 ? mc::choose(parts) : 0;
+  const BatchPlan pl = make_plan<T>(P);
   dispenso::ThreadPool pool((size_t)N);
   if (nest == 0) {
-    run_batch<T, TS>(pool, P, part, parts);
+    run_batch<T, TS>(pool, P, pl);
   } else if (nest == 1) {
     // nesting level 1: the calls are made from inside a body invocation of an outer parallel_for on the same pool
     dispenso::TaskSet outer(pool);
@@ -378,7 +413,7 @@ void pf_batch_T(const mc::Params& P) {
         outer, 0, 2,
         [&](int i) {
           if (i == 0) {
-            run_batch<T, TS>(pool, P, part, parts);
+            run_batch<T, TS>(pool, P, pl);
             ran.add(1);
           }
         },
@@ -391,7 +426,7 @@ void pf_batch_T(const mc::Params& P) {
     mc::Shared<int> ran{0};
     outer.schedule(
         [&] {
-          run_batch<T, TS>(pool, P, part, parts);
+          run_batch<T, TS>(pool, P, pl);
           ran.add(1);
         },
         dispenso::ForceQueuingTag());
@@ -400,33 +435,6 @@ void pf_batch_T(const mc::Params& P) {
     mc::cover("nested_in_task");
   }
 }
-
-template <template <class, class> class Fn, class TS>
-void by_type(const mc::Params& P) {
-  std::string t = P.s("type", "i32");
-  if (t == "i8")
-    Fn<int8_t, TS>::run(P);
-  else if (t == "u8")
-    Fn<uint8_t, TS>::run(P);
-  else if (t == "i16")
-    Fn<int16_t, TS>::run(P);
-  else if (t == "u16")
-    Fn<uint16_t, TS>::run(P);
-  else if (t == "i32")
-    Fn<int32_t, TS>::run(P);
-  else if (t == "u32")
-    Fn<uint32_t, TS>::run(P);
-  else if (t == "i64")
-    Fn<int64_t, TS>::run(P);
-  else if (t == "u64")
-    Fn<uint64_t, TS>::run(P);
-  else
-    mc::fail("harness: unknown type '%s'", t.c_str());
-}
-template <class T, class TS>
-struct BatchFn {
-  static void run(const mc::Params& P) { pf_batch_T<T, TS>(P); }
-};
 
 // ------------------------------------------------------------------------------------------ pf_one
 // One parallel_for call. at=0: start = off; at=min: start = MIN+off; at=max: end = MAX-off. The range has `size` elements.
@@ -493,10 +501,6 @@ void pf_one_T(const mc::Params& P) {
   mc::observe("layout", (long)(layout & 0x7fffffff));
   mc::observe("peak", rec->peak.get());
 }
-template <class T, class TS>
-struct OneFn {
-  static void run(const mc::Params& P) { pf_one_T<T, TS>(P); }
-};
 
 // ------------------------------------------------------------------------------------------ pf_state (C14)
 struct State {
@@ -658,27 +662,47 @@ const char* cont_name(char c) { return c == 'v' ? "vector(random access)" : c ==
 
 } // namespace
 
-// params: type i8..u64; set full8|quick8|edge|huge|gran; mode/mt/mi/g dotted lists (all combinations are run);
-// wait; n pool threads; nest 0|1|2; parts (the batch is split into `parts` executions by mc::choose); check 12|13; cts=1 ConcurrentTaskSet
+// params: type i8..u64; set full8|sz<k>|edge|huge|gran; mode/mt/mi/g/wait dotted lists (all combinations are run);
+// n pool threads; nest 0|1|2; per = calls per execution (the batch is split by mc::choose); check 12|13; yield; cts=1 ConcurrentTaskSet (i32)
 MC_HARNESS(pf_batch) {
-  if (P("cts", 0))
-    by_type<BatchFn, dispenso::ConcurrentTaskSet>(P);
+  std::string t = P.s("type", "i32");
+  typedef dispenso::TaskSet TS;
+  if (P("cts", 0)) {
+    MC_CHECK(t == "i32", "harness: cts=1 is built for type=i32 only");
+    pf_batch_T<int32_t, dispenso::ConcurrentTaskSet>(P);
+  } else if (t == "i8")
+    pf_batch_T<int8_t, TS>(P);
+  else if (t == "u8")
+    pf_batch_T<uint8_t, TS>(P);
+  else if (t == "i16")
+    pf_batch_T<int16_t, TS>(P);
+  else if (t == "u16")
+    pf_batch_T<uint16_t, TS>(P);
+  else if (t == "i32")
+    pf_batch_T<int32_t, TS>(P);
+  else if (t == "u32")
+    pf_batch_T<uint32_t, TS>(P);
+  else if (t == "i64")
+    pf_batch_T<int64_t, TS>(P);
+  else if (t == "u64")
+    pf_batch_T<uint64_t, TS>(P);
   else
-    by_type<BatchFn, dispenso::TaskSet>(P);
+    mc::fail("harness: unknown type '%s'", t.c_str());
 }
 
 // params: type, at 0|min|max, off, size, mode, mt, mi, g, wait, n, check 12|13|48, cts
 MC_HARNESS(pf_one) {
   std::string t = P.s("type", "i32");
   bool cts = P("cts", 0) != 0;
+  if (cts && t != "i32") mc::fail("harness: cts=1 is built for type=i32 only");
   if (t == "i8")
-    cts ? pf_one_T<int8_t, dispenso::ConcurrentTaskSet>(P) : pf_one_T<int8_t, dispenso::TaskSet>(P);
+    pf_one_T<int8_t, dispenso::TaskSet>(P);
   else if (t == "u8")
     pf_one_T<uint8_t, dispenso::TaskSet>(P);
   else if (t == "i32")
     cts ? pf_one_T<int32_t, dispenso::ConcurrentTaskSet>(P) : pf_one_T<int32_t, dispenso::TaskSet>(P);
   else if (t == "i64")
-    cts ? pf_one_T<int64_t, dispenso::ConcurrentTaskSet>(P) : pf_one_T<int64_t, dispenso::TaskSet>(P);
+    pf_one_T<int64_t, dispenso::TaskSet>(P);
   else if (t == "u64")
     pf_one_T<uint64_t, dispenso::TaskSet>(P);
   else
